@@ -196,7 +196,7 @@ def run_algo(run: Run, algo: str, kind: str, seed: int, n_iter: int, logs: dict,
                 else:
                     model = BaseModel.load(model_json)
                     ids = sorted(df.ID.unique())[1:5]
-                    sub = df[df.ID.isin(ids)].reset_index(drop=True)
+                    sub = synth.ensure_events(df[df.ID.isin(ids)].reset_index(drop=True))
                     ip = model.personalize(synth.make_data(sub, kind), algorithm_settings=settings)
                     dig = digest_df(ip.to_dataframe().sort_index())
             out = dict(digest=dig, rng=rng_digest(), settings_unchanged=_same(snap, settings.parameters))
@@ -459,6 +459,13 @@ def metamorphic(run: Run, thorough: bool):
                     continue
                 except Exception as e:
                     run.count("fit_variants", "aborted")
+                    if (name == "logging" and kind == "mixture_logistic" and "plot_patient_periodicity" in logs and with_path
+                            and isinstance(e, RuntimeError) and "same dtype" in str(e)):
+                        # listed finding: the mixture model holds float64 parameters, the patient-reconstruction plot estimates with float32 inputs
+                        run.fail("logging:plot-patient:mixture-float64-dtype-mismatch",
+                                 f"plot_patient_periodicity on a mixture_logistic fit aborts the run: RuntimeError: {e}", desc,
+                                 expected="run finishes", observed=f"RuntimeError: {e}")
+                        continue
                     run.fail(f"logging:abort:{type(e).__name__}" if name == "logging" else f"fit:abort:{type(e).__name__}",
                              f"accepted configuration aborts the fit: {type(e).__name__}: {e}", desc, expected="run finishes",
                              observed=f"{type(e).__name__}: {e}")
